@@ -267,7 +267,33 @@ def coupler_cases(rng, hist):
                 out.append(("coupler/additive-reused", "a reused additive(p)(f) on the same object refilled with %r differs from f(x)+p(x)" % (vv,), {"x": vv}))
             if [float(t) for t in buf] != vv:
                 out.append(("coupler/argument-modified", "a coupled function modified its argument %r -> %r" % (vv, [float(t) for t in buf]), {"x": vv}))
-    hist["coupler-reuse"] = hist.get("coupler-reuse", 0) + 24
+    # vector-valued functions that RETURN AN OBJECT THEY KEEP (a memoised result, their own argument): the coupled function
+    # must not accumulate into it - repeated evaluation gives the same value, f's stored result and the argument stay intact
+    memo = {}
+
+    def fmemo(v):
+        key = tuple(float(t) for t in v)
+        if key not in memo:
+            memo[key] = _np.array([float(t) * 2.0 + 1.0 for t in v])
+        return memo[key]
+
+    def fident(v):
+        return v
+
+    def pvec(v):
+        return _np.array([dsl.ev(e2, [float(t) for t in v])] * len(v))
+    for fn, name in ((fmemo, "memoised"), (fident, "identity")):
+        fav = coupler.additive(pvec)(fn)
+        arg = _np.array(x, dtype=float)
+        want = _np.array([float(t) for t in fn(_np.array(x, dtype=float))]) + pvec(x)
+        for rep in range(3):
+            got = fav(arg)
+            if not same_vec([float(t) for t in got], [float(t) for t in want]):
+                out.append(("coupler/additive-accumulates", "evaluation #%d of additive(p)(f) with a %s vector-valued f gives %r, f(x)+p(x) = %r" % (rep + 1, name, [float(t) for t in got], [float(t) for t in want]), {"x": x, "f": name}))
+                break
+        if [float(t) for t in arg] != [float(t) for t in x]:
+            out.append(("coupler/argument-modified", "additive(p)(f) with a %s f modified its argument %r -> %r" % (name, x, [float(t) for t in arg]), {"x": x}))
+    hist["coupler-reuse"] = hist.get("coupler-reuse", 0) + 30
     hist["coupler"] = hist.get("coupler", 0) + 3
     # penalty combinators: members of every type on conditions with feasible and infeasible points
     ptypes_eq = [P.quadratic_equality, P.linear_equality, P.uniform_equality]
